@@ -859,4 +859,640 @@ theorem filter_id_lt (ks : List Bool) : (ks.filter id).length < ks.length ↔ fa
       simp; omega
 
 
+
+/-! ### numbers -/
+
+theorem mem_seq {f g : List Nat → List (List Nat)} {l r : List Nat} :
+    r ∈ seq f g l ↔ ∃ m, m ∈ f l ∧ r ∈ g m := by
+  simp [seq, List.mem_flatMap]
+
+theorem mem_alt {f g : List Nat → List (List Nat)} {l r : List Nat} :
+    r ∈ alt f g l ↔ r ∈ f l ∨ r ∈ g l := by
+  simp [alt]
+
+theorem mem_opt {f : List Nat → List (List Nat)} {l r : List Nat} :
+    r ∈ opt f l ↔ r = l ∨ r ∈ f l := by
+  simp [opt]
+
+theorem mem_lit {p : Nat → Bool} {c : Nat} {t : List Nat} (h : p c = true) : t ∈ lit p (c :: t) := by
+  simp [lit, h]
+
+theorem self_mem_usDigits (d : Nat → Bool) (l : List Nat) : l ∈ usDigits d l := by
+  cases l with
+  | nil => simp [usDigits]
+  | cons c t => unfold usDigits; exact List.mem_cons_self ..
+
+theorem radixRun_digit (r c : Nat) (t : List Nat) (h : isDigitOf r c = true) :
+    radixRun r (c :: t) = (c :: (radixRun r t).1, (radixRun r t).2) := by
+  simp [radixRun, h]
+
+theorem radixRun_us (r c : Nat) (t : List Nat) (h : isDigitOf r c = false)
+    (h2 : (c = 95 && headIs (isDigitOf r) t) = true) :
+    radixRun r (c :: t) = radixRun r t := by
+  simp only [radixRun, h]
+  simp only [h2, if_true]
+  simp
+
+theorem radixRun_stop (r c : Nat) (t : List Nat) (h : isDigitOf r c = false)
+    (h2 : (c = 95 && headIs (isDigitOf r) t) = false) :
+    radixRun r (c :: t) = ([], c :: t) := by
+  simp [radixRun, h, h2]
+
+theorem usDigits_digit (d : Nat → Bool) (c : Nat) (t : List Nat) (h : d c = true) :
+    usDigits d (c :: t) = (c :: t) :: usDigits d t := by
+  cases t <;> simp [usDigits, h]
+
+theorem usDigits_us (d : Nat → Bool) (c' : Nat) (t' : List Nat) (h95 : d 95 = false) (h : d c' = true) :
+    usDigits d (95 :: c' :: t') = (95 :: c' :: t') :: usDigits d t' := by
+  rw [usDigits]; simp [h, h95]
+
+
+theorem isDigitOf_95 (r : Nat) : isDigitOf r 95 = false := by
+  unfold isDigitOf; split <;> decide
+
+theorem radixRun_len (r : Nat) (l : List Nat) : (radixRun r l).2.length ≤ l.length := by
+  induction l with
+  | nil => simp [radixRun]
+  | cons c t ih =>
+    by_cases hc : isDigitOf r c = true
+    · rw [radixRun_digit r c t hc]; simp; omega
+    · have hc' : isDigitOf r c = false := by simpa using hc
+      by_cases h2 : (c = 95 && headIs (isDigitOf r) t) = true
+      · rw [radixRun_us r c t hc' h2]; simp; omega
+      · rw [radixRun_stop r c t hc' (by simpa using h2)]; simp
+
+/-- the remainder of `radix_run` is one of the remainders of `(["_"] digit)*` -/
+theorem radixRun_mem (r : Nat) : ∀ (n : Nat) (l : List Nat), l.length ≤ n →
+    (radixRun r l).2 ∈ usDigits (isDigitOf r) l := by
+  intro n
+  induction n with
+  | zero => intro l hl; cases l <;> simp_all [radixRun, usDigits]
+  | succ n ih =>
+    intro l hl
+    cases l with
+    | nil => simp [radixRun, usDigits]
+    | cons c t =>
+      by_cases hc : isDigitOf r c = true
+      · rw [radixRun_digit r c t hc, usDigits_digit _ c t hc]
+        exact List.mem_cons_of_mem _ (ih t (by simp at hl; omega))
+      · have hc' : isDigitOf r c = false := by simpa using hc
+        by_cases h2 : (c = 95 && headIs (isDigitOf r) t) = true
+        · rw [radixRun_us r c t hc' h2]
+          simp only [Bool.and_eq_true, decide_eq_true_eq] at h2
+          obtain ⟨h95, hh⟩ := h2
+          subst h95
+          cases t with
+          | nil => simp [headIs] at hh
+          | cons c' t' =>
+            simp only [headIs] at hh
+            rw [radixRun_digit r c' t' hh, usDigits_us _ c' t' (isDigitOf_95 r) hh]
+            exact List.mem_cons_of_mem _ (ih t' (by simp at hl; omega))
+        · rw [radixRun_stop r c t hc' (by simpa using h2)]
+          exact self_mem_usDigits _ _
+
+
+
+theorem isDigitOf10 : isDigitOf 10 = digit := by funext c; rfl
+theorem isDigitOf8 : isDigitOf 8 = octdigit := by funext c; rfl
+theorem isDigitOf16 : isDigitOf 16 = hexdigit := by funext c; rfl
+theorem isDigitOf2 : isDigitOf 2 = bindigit := by
+  funext c
+  unfold isDigitOf bindigit
+  rw [Bool.eq_iff_iff]
+  simp
+  omega
+
+theorem isDec_eq (c : Nat) : isDec c = digit c := rfl
+
+theorem radixRun_digitpart (c : Nat) (t : List Nat) (h : isDec c = true) :
+    (radixRun 10 (c :: t)).2 ∈ digitpart (c :: t) := by
+  rw [radixRun_digit 10 c t h]
+  simp only [digitpart]
+  rw [← isDec_eq, h]
+  simp only [if_true]
+  rw [← isDigitOf10]
+  exact radixRun_mem 10 _ t (Nat.le_refl _)
+
+/-- when every collected digit is `0`, the run is also a run of `(["_"] "0")*` -/
+theorem radixRun_zeros : ∀ (n : Nat) (l : List Nat), l.length ≤ n →
+    (radixRun 10 l).1.all (· = 48) = true → (radixRun 10 l).2 ∈ usDigits (· = 48) l := by
+  intro n
+  induction n with
+  | zero => intro l hl _; cases l <;> simp_all [radixRun, usDigits]
+  | succ n ih =>
+    intro l hl hz
+    cases l with
+    | nil => simp [radixRun, usDigits]
+    | cons c t =>
+      by_cases hc : isDigitOf 10 c = true
+      · rw [radixRun_digit 10 c t hc] at hz ⊢
+        simp only [List.all_cons, Bool.and_eq_true, decide_eq_true_eq] at hz
+        rw [usDigits_digit _ c t (by simp [hz.1])]
+        exact List.mem_cons_of_mem _ (ih t (by simp at hl; omega) hz.2)
+      · have hc' : isDigitOf 10 c = false := by simpa using hc
+        by_cases h2 : (c = 95 && headIs (isDigitOf 10) t) = true
+        · rw [radixRun_us 10 c t hc' h2] at hz ⊢
+          simp only [Bool.and_eq_true, decide_eq_true_eq] at h2
+          obtain ⟨h95, hh⟩ := h2
+          subst h95
+          cases t with
+          | nil => simp [headIs] at hh
+          | cons c' t' =>
+            simp only [headIs] at hh
+            rw [radixRun_digit 10 c' t' hh] at hz ⊢
+            simp only [List.all_cons, Bool.and_eq_true, decide_eq_true_eq] at hz
+            rw [usDigits_us _ c' t' (by decide) (by simp [hz.1])]
+            exact List.mem_cons_of_mem _ (ih t' (by simp at hl; omega) hz.2)
+        · rw [radixRun_stop 10 c t hc' (by simpa using h2)]
+          exact self_mem_usDigits _ _
+
+/-- digits were collected and the text does not start with `_`: it starts with a digit -/
+theorem radixRun_first (l : List Nat) (h : (radixRun 10 l).1.isEmpty = false)
+    (hu : headIs (· = 95) l = false) : headIs isDec l = true := by
+  cases l with
+  | nil => simp [radixRun] at h
+  | cons c t =>
+    by_cases hc : isDigitOf 10 c = true
+    · simp only [headIs, isDec]; exact hc
+    · have hc' : isDigitOf 10 c = false := by simpa using hc
+      have h95 : c ≠ 95 := by simpa [headIs] using hu
+      rw [radixRun_stop 10 c t hc' (by simp [h95])] at h
+      simp at h
+
+theorem lexFraction_sound (r1 r2 : List Nat) (h : lexFraction r1 = .ok r2) (hd : headIs (· = 46) r1 = true) :
+    ∃ t, r1 = 46 :: t ∧ ((headIs isDec t = true ∧ r2 ∈ digitpart t) ∨ (headIs isDec t = false ∧ r2 = t)) := by
+  cases r1 with
+  | nil => simp [headIs] at hd
+  | cons c t =>
+    have hc : c = 46 := by simpa [headIs] using hd
+    subst hc
+    refine ⟨t, rfl, ?_⟩
+    simp only [lexFraction] at h
+    split at h
+    · cases h
+    · rename_i hu
+      simp only [Except.ok.injEq] at h
+      subst h
+      cases t with
+      | nil => right; simp [headIs, radixRun]
+      | cons c' t' =>
+        by_cases hc' : isDec c' = true
+        · left; exact ⟨by simpa [headIs] using hc', radixRun_digitpart c' t' hc'⟩
+        · right
+          have hc'' : isDigitOf 10 c' = false := by simpa [isDec] using hc'
+          have h95 : c' ≠ 95 := by simpa [headIs] using hu
+          refine ⟨by simpa [headIs] using hc', ?_⟩
+          rw [radixRun_stop 10 c' t' hc'' (by simp [h95])]
+
+theorem lexFraction_nodot (r1 r2 : List Nat) (h : lexFraction r1 = .ok r2) (hd : headIs (· = 46) r1 = false) :
+    r2 = r1 := by
+  cases r1 with
+  | nil => simp [lexFraction] at h; exact h
+  | cons c t =>
+    have hc : c ≠ 46 := by simpa [headIs] using hd
+    unfold lexFraction at h
+    split at h
+    · rename_i heq; simp at heq; exact absurd heq.1 hc
+    · simp at h; exact h.symm
+
+theorem lexExponent_sound (r2 r5 : List Nat) (h : lexExponent r2 = .ok (r5, false)) :
+    (r5 = r2 ∧ headIs isE r2 = false) ∨ r5 ∈ exponent r2 := by
+  cases r2 with
+  | nil => left; simp [lexExponent] at h; simp [h, headIs]
+  | cons e t =>
+    simp only [lexExponent] at h
+    by_cases he : isE e = true
+    · right
+      simp only [he, if_true] at h
+      split at h
+      · cases h
+      · rename_i hu
+        have hlit : t ∈ lit (fun c => c = 101 || c = 69) (e :: t) := mem_lit (by simpa [isE] using he)
+        cases t with
+        | nil => simp at h
+        | cons s t' =>
+          simp only at h
+          by_cases hs : isSign s = true
+          · simp only [hs, if_true] at h
+            split at h
+            · cases h
+            · rename_i hu2
+              simp only [Except.ok.injEq, Prod.mk.injEq] at h
+              obtain ⟨h1, h2⟩ := h
+              have hf := radixRun_first t' h2 (by simpa using hu2)
+              cases t' with
+              | nil => simp [headIs] at hf
+              | cons c' t'' =>
+                have hc' : isDec c' = true := by simpa [headIs] using hf
+                have := radixRun_digitpart c' t'' hc'
+                rw [h1] at this
+                unfold exponent
+                rw [mem_seq]
+                refine ⟨s :: c' :: t'', hlit, ?_⟩
+                rw [mem_seq]
+                refine ⟨c' :: t'', ?_, this⟩
+                rw [mem_opt]; right
+                exact mem_lit (by simpa [isSign] using hs)
+          · have hs' : isSign s = false := by simpa using hs
+            simp only [hs', Bool.false_eq_true, if_false, Except.ok.injEq, Prod.mk.injEq] at h
+            obtain ⟨h1, h2⟩ := h
+            have hf := radixRun_first (s :: t') (by simpa using h2) (by simpa using hu)
+            have hc' : isDec s = true := by simpa [headIs] using hf
+            have := radixRun_digitpart s t' hc'
+            rw [h1] at this
+            unfold exponent
+            rw [mem_seq]
+            refine ⟨s :: t', hlit, ?_⟩
+            rw [mem_seq]
+            exact ⟨s :: t', by rw [mem_opt]; left; rfl, this⟩
+    · left
+      simp only [he] at h
+      simp at h
+      exact ⟨h.symm, by simpa [headIs] using he⟩
+
+
+
+theorem dropJ_sound (cs r5 : List Nat) (h : r5 ∈ floatnumber cs) : dropJ r5 ∈ number cs := by
+  unfold number
+  cases r5 with
+  | nil => simp only [dropJ]; rw [mem_alt, mem_alt]; exact Or.inr (Or.inl h)
+  | cons c t =>
+    simp only [dropJ]
+    by_cases hj : isJ c = true
+    · simp only [hj, if_true]
+      rw [mem_alt, mem_alt]; right; right
+      unfold imagnumber
+      rw [mem_seq]
+      exact ⟨c :: t, by rw [mem_alt]; exact Or.inl h, mem_lit (by simpa [isJ] using hj)⟩
+    · simp only [hj]
+      rw [mem_alt, mem_alt]; exact Or.inr (Or.inl h)
+
+theorem tail_sound (cs r2 r5 : List Nat)
+    (hp : r2 ∈ pointfloat cs ∨ (r2 ∈ digitpart cs ∧ headIs isE r2 = true))
+    (he : lexExponent r2 = .ok (r5, false)) : dropJ r5 ∈ number cs := by
+  apply dropJ_sound
+  unfold floatnumber
+  rw [mem_alt]
+  rcases lexExponent_sound r2 r5 he with ⟨h1, h2⟩ | h
+  · rcases hp with hp | ⟨_, hp⟩
+    · left; rw [h1]; exact hp
+    · rw [hp] at h2; cases h2
+  · right
+    unfold exponentfloat
+    rw [mem_seq]
+    refine ⟨r2, ?_, h⟩
+    rw [mem_alt]
+    rcases hp with hp | ⟨hp, _⟩
+    · exact Or.inr hp
+    · exact Or.inl hp
+
+theorem atExponent_head (r : List Nat) (h : atExponent r = true) : headIs isE r = true := by
+  unfold atExponent at h
+  split at h
+  · simp only [Bool.and_eq_true] at h; simpa [headIs] using h.1
+  · simp only [Bool.and_eq_true] at h; simpa [headIs] using h.1
+  · cases h
+
+/-- the float path of `lex_normal_number`, given what the integer-part run left -/
+theorem float_path_sound (cs r1 r : List Nat)
+    (h1 : r1 ∈ digitpart cs ∨ (r1 = cs ∧ ∃ d t, cs = 46 :: d :: t ∧ isDec d = true))
+    (hf : (headIs (· = 46) r1 || atExponent r1) = true)
+    (h : (match lexFraction r1 with
+          | .error e => Except.error e
+          | .ok r2 =>
+            match lexExponent r2 with
+            | .error e => .error e
+            | .ok (r5, bad) => if bad then .error r5 else .ok (dropJ r5)) = .ok r) :
+    r ∈ number cs := by
+  cases hfr : lexFraction r1 with
+  | error e => rw [hfr] at h; cases h
+  | ok r2 =>
+    rw [hfr] at h
+    simp only at h
+    cases hex : lexExponent r2 with
+    | error e => rw [hex] at h; cases h
+    | ok p =>
+      obtain ⟨r5, bad⟩ := p
+      rw [hex] at h
+      simp only at h
+      cases bad with
+      | true => simp at h
+      | false =>
+        simp only [Bool.false_eq_true, if_false, Except.ok.injEq] at h
+        subst h
+        apply tail_sound cs r2 r5 _ hex
+        by_cases hd : headIs (· = 46) r1 = true
+        · left
+          obtain ⟨t, e1, ht⟩ := lexFraction_sound r1 r2 hfr hd
+          unfold pointfloat
+          rw [mem_alt]
+          rcases ht with ⟨hdig, hr2⟩ | ⟨hdig, hr2⟩
+          · left
+            rw [mem_seq]
+            refine ⟨r1, ?_, ?_⟩
+            · rw [mem_opt]
+              rcases h1 with h1 | ⟨h1, _⟩
+              · exact Or.inr h1
+              · exact Or.inl h1
+            · unfold fraction
+              rw [mem_seq, e1]
+              exact ⟨t, mem_lit (by simp), hr2⟩
+          · rcases h1 with h1 | ⟨h1, d, t', e2, hd'⟩
+            · right
+              rw [mem_seq]
+              exact ⟨r1, h1, by rw [e1, hr2]; exact mem_lit (by simp)⟩
+            · -- `.` followed by a digit: the fraction cannot be empty
+              rw [h1, e2] at e1
+              simp only [List.cons.injEq, true_and] at e1
+              rw [← e1] at hdig
+              simp [headIs, hd'] at hdig
+        · right
+          have hd' : headIs (· = 46) r1 = false := by simpa using hd
+          have hat : atExponent r1 = true := by simpa [hd'] using hf
+          have e := lexFraction_nodot r1 r2 hfr hd'
+          subst e
+          rcases h1 with h1 | ⟨h1, d, t', e2, _⟩
+          · exact ⟨h1, atExponent_head _ hat⟩
+          · rw [h1, e2] at hd'; simp [headIs] at hd'
+
+
+theorem int_path_sound (c : Nat) (t r : List Nat) (hc : isDec c = true)
+    (hnf : (headIs (· = 46) (radixRun 10 (c :: t)).2 || atExponent (radixRun 10 (c :: t)).2) = false)
+    (h : (if headIs isJ (radixRun 10 (c :: t)).2 = true then Except.ok (radixRun 10 (c :: t)).2.tail
+          else if (headIs (· = 48) (c :: t) && (radixRun 10 (c :: t)).1.any (· ≠ 48)) = true
+            then Except.error (radixRun 10 (c :: t)).2
+          else Except.ok (radixRun 10 (c :: t)).2) = Except.ok r) :
+    r ∈ number (c :: t) := by
+  have hdp := radixRun_digitpart c t hc
+  unfold number
+  rw [mem_alt, mem_alt]
+  split at h
+  · -- imaginary: digitpart j
+    rename_i hj
+    simp only [Except.ok.injEq] at h
+    right; right
+    unfold imagnumber
+    rw [mem_seq]
+    refine ⟨(radixRun 10 (c :: t)).2, by rw [mem_alt]; exact Or.inr hdp, ?_⟩
+    cases hr : (radixRun 10 (c :: t)).2 with
+    | nil => rw [hr] at hj; simp [headIs] at hj
+    | cons j t' =>
+      rw [hr] at hj h
+      simp only [List.tail_cons] at h
+      subst h
+      exact mem_lit (by simpa [headIs, isJ] using hj)
+  · split at h
+    · cases h
+    · rename_i hz
+      simp only [Except.ok.injEq] at h
+      subst h
+      left
+      unfold integer
+      rw [mem_alt]; left
+      unfold decinteger
+      rw [mem_alt]
+      have hdig : isDigitOf 10 c = true := hc
+      rw [radixRun_digit 10 c t hdig] at hz ⊢
+      by_cases h0 : c = 48
+      · right
+        subst h0
+        rw [mem_seq]
+        refine ⟨t, mem_lit (by simp), ?_⟩
+        apply radixRun_zeros t.length t (Nat.le_refl _)
+        simp only [headIs, decide_true, Bool.true_and, Bool.not_eq_true] at hz
+        rw [List.any_cons] at hz
+        simp only [ne_eq, not_true_eq_false, decide_false, Bool.false_or] at hz
+        rw [List.all_eq_true]
+        intro x hx
+        have := List.any_eq_false.1 hz x hx
+        simpa using this
+      · left
+        rw [mem_seq]
+        refine ⟨t, mem_lit ?_, ?_⟩
+        · have : digit c = true := hc
+          unfold nonzerodigit
+          unfold digit at this
+          simp only [Bool.and_eq_true, decide_eq_true_eq] at this ⊢
+          omega
+        · rw [← isDigitOf10]; exact radixRun_mem 10 _ t (Nat.le_refl _)
+
+
+
+theorem startsNumber_cons2 (c d : Nat) (t : List Nat) :
+    startsNumber (c :: d :: t) = (if c = 46 then isDec d else isDec c) := by
+  by_cases e : c = 46
+  · subst e; rfl
+  · simp only [e, if_false]
+    unfold startsNumber
+    split
+    · rename_i heq; simp only [List.cons.injEq] at heq; exact absurd heq.1 e
+    · rename_i heq; simp only [List.cons.injEq] at heq; rw [heq.1]
+    · rename_i heq; cases heq
+
+theorem lexNormalRest_sound (cs r : List Nat) (hs : startsNumber cs = true)
+    (h : lexNormalRest cs = .ok r) : r ∈ number cs := by
+  cases cs with
+  | nil => simp [startsNumber] at hs
+  | cons c t =>
+    unfold lexNormalRest at h
+    simp only at h
+    by_cases hc : isDec c = true
+    · by_cases hf : (headIs (· = 46) (radixRun 10 (c :: t)).2 || atExponent (radixRun 10 (c :: t)).2) = true
+      · rw [if_pos hf] at h
+        exact float_path_sound (c :: t) _ r (Or.inl (radixRun_digitpart c t hc)) hf h
+      · rw [if_neg hf] at h
+        exact int_path_sound c t r hc (by simpa using hf) h
+    · -- `.` followed by a digit
+      have hc' : isDec c = false := by simpa using hc
+      cases t with
+      | nil =>
+        unfold startsNumber at hs
+        split at hs <;> simp_all
+      | cons d t' =>
+        have hsn := startsNumber_cons2 c d t'
+        have h46 : c = 46 ∧ isDec d = true := by
+          rw [hsn] at hs
+          by_cases e : c = 46
+          · simp only [e, if_true] at hs; exact ⟨e, hs⟩
+          · simp only [e, if_false] at hs; rw [hs] at hc'; cases hc'
+        obtain ⟨e, hd⟩ := h46
+        subst e
+        have hrr : radixRun 10 (46 :: d :: t') = ([], 46 :: d :: t') :=
+          radixRun_stop 10 46 (d :: t') (by decide) (by simp)
+        rw [hrr] at h
+        simp only [headIs, decide_true, Bool.true_or, if_true] at h
+        exact float_path_sound (46 :: d :: t') (46 :: d :: t') r
+          (Or.inr ⟨rfl, d, t', rfl, hd⟩) (by simp [headIs]) h
+
+theorem lexRest_sound_aux (cs r : List Nat) (hs : startsNumber cs = true) (h : lexRest cs = .ok r) :
+    r ∈ number cs := by
+  unfold lexRest at h
+  split at h
+  · rename_i x rest
+    simp only at h
+    split at h
+    · rename_i rx heq
+      -- a radix literal: `0` prefix-letter digits+
+      have hne : (radixRun rx rest).1.isEmpty = false := by
+        cases hb : (radixRun rx rest).1.isEmpty
+        · rfl
+        · rw [hb] at h; simp at h
+      rw [hne] at h
+      simp only [Bool.false_eq_true, if_false, Except.ok.injEq] at h
+      have hmem := radixRun_mem rx rest.length rest (Nat.le_refl _)
+      rw [h] at hmem
+      have hlen : r.length < rest.length := by
+        -- at least one digit was consumed
+        have : ∀ (l : List Nat), (radixRun rx l).1.isEmpty = false → (radixRun rx l).2.length < l.length := by
+          intro l
+          induction l with
+          | nil => simp [radixRun]
+          | cons c t ih =>
+            intro hl
+            by_cases hc : isDigitOf rx c = true
+            · rw [radixRun_digit rx c t hc]
+              have := radixRun_len rx t
+              simp; omega
+            · have hc' : isDigitOf rx c = false := by simpa using hc
+              by_cases h2 : (c = 95 && headIs (isDigitOf rx) t) = true
+              · rw [radixRun_us rx c t hc' h2] at hl ⊢
+                have := ih hl
+                simp; omega
+              · rw [radixRun_stop rx c t hc' (by simpa using h2)] at hl
+                simp at hl
+        rw [← h]; exact this rest hne
+      have hus1 : r ∈ usDigits1 (isDigitOf rx) rest := by
+        unfold usDigits1
+        rw [List.mem_filter]
+        exact ⟨hmem, by simpa using hlen⟩
+      unfold number
+      rw [mem_alt]; left
+      unfold integer
+      rw [mem_alt]; right
+      have pre : ∀ (a b : Nat) (dg : Nat → Bool), (x = a ∨ x = b) → isDigitOf rx = dg →
+          r ∈ prefixed a b dg (48 :: x :: rest) := by
+        intro a b dg hx hdg
+        unfold prefixed
+        rw [mem_seq]
+        refine ⟨x :: rest, mem_lit (by simp), ?_⟩
+        rw [mem_seq]
+        refine ⟨rest, mem_lit (by rcases hx with e | e <;> simp [e]), ?_⟩
+        rw [← hdg]; exact hus1
+      split at heq
+      · rename_i hx
+        simp only [Option.some.injEq] at heq; subst heq
+        rw [mem_alt]; right; rw [mem_alt]; right
+        exact pre 120 88 hexdigit (by simpa using hx) isDigitOf16
+      · split at heq
+        · rename_i hx
+          simp only [Option.some.injEq] at heq; subst heq
+          rw [mem_alt]; right; rw [mem_alt]; left
+          exact pre 111 79 octdigit (by simpa using hx) isDigitOf8
+        · split at heq
+          · rename_i hx
+            simp only [Option.some.injEq] at heq; subst heq
+            rw [mem_alt]; left
+            exact pre 98 66 bindigit (by simpa using hx) isDigitOf2
+          · cases heq
+    · exact lexNormalRest_sound _ r hs h
+  · exact lexNormalRest_sound _ r hs h
+
+
+
+/-! ### the grammar's assembly of a parameter list -/
+
+theorem argsOf_nil_iff (k : PKind) (ps : Sig) : ∀ (off : Nat) (pp : Bool),
+    (argsOf k (layoutGo off pp ps) = [] ↔ ∀ p, p ∈ ps → p.kind ≠ k) := by
+  induction ps with
+  | nil => intro off pp; simp [layoutGo, argsOf]
+  | cons p ps ih =>
+    intro off pp
+    simp only [layoutGo, argsOf, List.filterMap_cons]
+    by_cases hk : p.kind = k
+    · simp [hk]
+    · simp only [hk, if_false]
+      have := ih (((if (pp && p.kind != PKind.posonly) = true then off + 3 else off) + p.itemLen + 2)) (p.kind == .posonly)
+      simp only [argsOf] at this
+      rw [this]
+      simp [hk]
+
+theorem wellOrderedGo_mono (ps : Sig) : ∀ (prev : Nat) (ss : Bool), wellOrderedGo prev ss ps = true →
+    ∀ q, q ∈ ps → prev ≤ q.kind.rank ∧ ((q.kind.rank = 2 ∨ q.kind.rank = 4) → prev < q.kind.rank) := by
+  induction ps with
+  | nil => intro prev ss _ q hq; cases hq
+  | cons p ps ih =>
+    intro prev ss h q hq
+    simp only [wellOrderedGo, Bool.and_eq_true] at h
+    obtain ⟨⟨⟨h1, _⟩, _⟩, h4⟩ := h
+    have hp : prev ≤ p.kind.rank ∧ ((p.kind.rank = 2 ∨ p.kind.rank = 4) → prev < p.kind.rank) := by
+      by_cases hs : (p.kind.rank == 2 || p.kind.rank == 4) = true
+      · simp only [hs, if_true, decide_eq_true_eq] at h1
+        exact ⟨by omega, fun _ => h1⟩
+      · simp only [hs] at h1
+        simp only [Bool.false_eq_true, if_false, decide_eq_true_eq] at h1
+        refine ⟨h1, fun hh => ?_⟩
+        simp only [Bool.or_eq_true, beq_iff_eq] at hs
+        exact absurd hh hs
+    rcases List.mem_cons.1 hq with e | hq
+    · subst e; exact hp
+    · have := ih _ _ h4 q hq
+      exact ⟨by omega, fun hh => by have := this.2 hh; omega⟩
+
+theorem rank_star : PKind.star.rank = 2 := rfl
+
+/-- in a grammar-ordered list: there is a bare star and nothing that may follow it (`*name` cannot
+    coexist with it) exactly when the bare star is the last item -/
+theorem bareStar_last_iff (ps : Sig) : ∀ (prev : Nat) (ss : Bool), wellOrderedGo prev ss ps = true →
+    (((∃ p, p ∈ ps ∧ p.kind = .star) ∧ (∀ p, p ∈ ps → p.kind ≠ .vararg) ∧
+      (∀ p, p ∈ ps → p.kind ≠ .kwonly) ∧ (∀ p, p ∈ ps → p.kind ≠ .kwarg)) ↔ bareStarLast ps) := by
+  induction ps with
+  | nil => intro prev ss _; simp [bareStarLast]
+  | cons p ps ih =>
+    intro prev ss h
+    have h' := h
+    simp only [wellOrderedGo, Bool.and_eq_true] at h'
+    obtain ⟨_, h4⟩ := h'
+    have mono := wellOrderedGo_mono ps _ _ h4
+    cases ps with
+    | nil =>
+      simp only [bareStarLast, List.getLast?_singleton, Option.some.injEq, exists_eq_left',
+        List.mem_singleton, forall_eq, exists_eq_left]
+      constructor
+      · intro hh; exact hh.1
+      · intro hh; rw [hh]; simp
+    | cons p2 ps2 =>
+      have hlast : bareStarLast (p :: p2 :: ps2) ↔ bareStarLast (p2 :: ps2) := by
+        simp [bareStarLast, List.getLast?_cons_cons]
+      rw [hlast, ← ih _ _ h4]
+      constructor
+      · rintro ⟨⟨q, hq, hqs⟩, hv, hk, hw⟩
+        have hv' : ∀ x, x ∈ p2 :: ps2 → x.kind ≠ .vararg := fun x hx => hv x (List.mem_cons_of_mem _ hx)
+        have hk' : ∀ x, x ∈ p2 :: ps2 → x.kind ≠ .kwonly := fun x hx => hk x (List.mem_cons_of_mem _ hx)
+        have hw' : ∀ x, x ∈ p2 :: ps2 → x.kind ≠ .kwarg := fun x hx => hw x (List.mem_cons_of_mem _ hx)
+        refine ⟨?_, hv', hk', hw'⟩
+        rcases List.mem_cons.1 hq with e | hq
+        · -- `p` itself is the star: the next item would have to be keyword-only or `**`
+          subst e
+          have m2 := mono p2 (List.mem_cons_self ..)
+          rw [hqs, rank_star] at m2
+          have a := hv' p2 (List.mem_cons_self ..)
+          have b := hk' p2 (List.mem_cons_self ..)
+          have c := hw' p2 (List.mem_cons_self ..)
+          exfalso
+          cases hk2 : p2.kind <;> simp_all [PKind.rank]
+        · exact ⟨q, hq, hqs⟩
+      · rintro ⟨⟨q, hq, hqs⟩, hv, hk, hw⟩
+        have mq := (mono q hq).2 (Or.inl (by rw [hqs]; rfl))
+        rw [hqs, rank_star] at mq
+        refine ⟨⟨q, List.mem_cons_of_mem _ hq, hqs⟩, ?_, ?_, ?_⟩ <;>
+        · intro x hx
+          rcases List.mem_cons.1 hx with e | hx
+          · subst e; intro hkind; rw [hkind] at mq; simp [PKind.rank] at mq
+          · first | exact hv x hx | exact hk x hx | exact hw x hx
+
+
+theorem head?_isNone_iff {α} (l : List α) : l.head?.isNone = true ↔ l = [] := by
+  cases l <;> simp
+
+
 end PV.C04
